@@ -241,7 +241,8 @@ theorem recvNUD_cases (a nb : Ty) (fa : a.TD sfh) (hnb : asg cfg sfh nb .undef =
       unfold asgRecv
       simp [leafF .str rfl (by unfold asgRecv; rfl), leafF .numeric rfl (by unfold asgRecv; rfl),
         leafF (.bool none) rfl (by unfold asgRecv; rfl), leafF (.regexp "") rfl (by unfold asgRecv; rfl),
-        leafF (.tspan Rng.all) rfl (by unfold asgRecv; rfl)]
+        leafF (.tspan Rng.all) rfl (by unfold asgRecv; rfl),
+        leafF (.tstamp tstampAll) rfl (by unfold asgRecv; rfl)]
     unfold asgRecv at h
     simp [hsc, leafF .undef rfl (by unfold asgRecv; rfl), leafF .bin rfl (by unfold asgRecv; rfl),
       leafF .dflt rfl (by unfold asgRecv; rfl), leafF (.object none) rfl (by unfold asgRecv; rfl),
@@ -267,12 +268,13 @@ theorem recvNUD_cases (a nb : Ty) (fa : a.TD sfh) (hnb : asg cfg sfh nb .undef =
     exfalso
     unfold asgRecv at h
     simp only [Bool.or_eq_true] at h
-    rcases h with (((h | h) | h) | h) | h
+    rcases h with ((((h | h) | h) | h) | h) | h
     · rw [leafF .str rfl (by unfold asgRecv; rfl)] at h; cases h
     · rw [leafF .numeric rfl (by unfold asgRecv; rfl)] at h; cases h
     · rw [leafF (.bool none) rfl (by unfold asgRecv; rfl)] at h; cases h
     · rw [leafF (.regexp "") rfl (by unfold asgRecv; rfl)] at h; cases h
     · rw [leafF (.tspan Rng.all) rfl (by unfold asgRecv; rfl)] at h; cases h
+    · rw [leafF (.tstamp tstampAll) rfl (by unfold asgRecv; rfl)] at h; cases h
   | scalarData =>
     exfalso
     unfold asgRecv at h
@@ -328,7 +330,7 @@ theorem acceptsD_any : ∀ (n : Nat) (a : Ty), a.w ≤ n → a.TD sfh → asg cf
       | scalar =>
         exfalso; unfold asgRecv at h
         simp only [Bool.or_eq_true] at h
-        rcases h with (((h | h) | h) | h) | h <;>
+        rcases h with ((((h | h) | h) | h) | h) | h <;>
           (rw [asg_plain_r cfg sfh _ .any rfl] at h; simp [Ty.isAny, sameNullary, asgRecv, isStringFamily] at h)
       | scalarData =>
         exfalso; unfold asgRecv at h
@@ -361,12 +363,13 @@ theorem recv_undef_cases (c : Ty) (h : asgRecv cfg sfh c .undef = true) :
     exfalso
     unfold asgRecv at h
     simp only [Bool.or_eq_true] at h
-    rcases h with (((h | h) | h) | h) | h
+    rcases h with ((((h | h) | h) | h) | h) | h
     · rw [lf .str rfl rfl (by unfold asgRecv; rfl)] at h; cases h
     · rw [lf .numeric rfl rfl (by unfold asgRecv; rfl)] at h; cases h
     · rw [lf (.bool none) rfl rfl (by unfold asgRecv; rfl)] at h; cases h
     · rw [lf (.regexp "") rfl rfl (by unfold asgRecv; rfl)] at h; cases h
     · rw [lf (.tspan Rng.all) rfl rfl (by unfold asgRecv; rfl)] at h; cases h
+    · rw [lf (.tstamp tstampAll) rfl rfl (by unfold asgRecv; rfl)] at h; cases h
   | scalarData =>
     exfalso
     unfold asgRecv at h
